@@ -26,9 +26,8 @@ C = dict(
         dict(name="hist-sim", module="WriterMap", cfg="WriterMap_HPlanSim.cfg", simulate={"quick": 30, "thorough": 400}, depth=9,
              cap={"quick": 300, "thorough": 8000}),
         # the life of a collection: the api events of one collection share the collection's source object (as core/reader builds them)
-        dict(name="hist-life", module="WriterMap", cfg="WriterMap_HPlanLife.cfg", workers=4, cap={"quick": 500}),
-        dict(name="hist-life-sim", module="WriterMap", cfg="WriterMap_HPlanLifeSim.cfg", simulate={"quick": 20, "thorough": 400}, depth=10,
-             cap={"quick": 150, "thorough": 6000}),
+        dict(name="hist-life", module="WriterMap", cfg="WriterMap_HPlanLife.cfg", workers=4, cap={"quick": 400}),
+        dict(name="hist-life-sim", module="WriterMap", cfg="WriterMap_HPlanLifeSim.cfg", simulate=400, depth=10, cap=6000, tiers=["thorough"]),
         # the target client
         dict(name="tgt-uc", module="TargetMap", cfg="TargetMap_PlanUC.cfg", workers=4),
         dict(name="tgt-cuc", module="TargetMap", cfg="TargetMap_PlanCUC.cfg", workers=4, cap={"quick": 600}),
@@ -45,7 +44,7 @@ C = dict(
          "sequence of the small configurations (sampled in the quick tier) and random 7-step histories over all 30 kinds; the api "
          "events of one collection (create collection, create / drop partition, drop collection) share ONE CollectionInfo / "
          "PartitionInfo object per history, as core/reader hands them over: every mapping - event - event - event sequence on two "
-         "source databases (sampled in the quick tier), random 8-step lives (events, op / data messages, probes, updates), directed "
+         "source databases (sampled in the quick tier), random 8-step lives (events, op / data messages, probes, updates; thorough tier), directed "
          "lives under every mapping shape incl. rename + move; "
          "(c) the target client: every mapping x call, call - update - call sequences (sampled in the quick tier), random 6-step "
          "histories.  When a table holds more than one entry for a source database the operation (24 times) / the history "
